@@ -494,7 +494,10 @@ Proof.
   intros E Em.
   destruct o; cbn [tr] in E; try discriminate E; unfold T0, T1, T2 in E;
     repeat match type of E with
-           | context [match ?X with _ => _ end] => destruct X as [[[[? ?] ?] ?]|]; try discriminate E
+           | context [match ?X with _ => _ end] =>
+               lazymatch X with
+               | tr_str _ _ _ => destruct X as [[[[? ?] ?] ?]|]; try discriminate E
+               end
            end;
     try (destruct strs as [l|]; [destruct (tr_strs V st l) as [[[[? ?] ?] ?]|]; try discriminate E|]);
     injection E as <-; cbn [t_main t_kind] in *; try discriminate Em; injection Em as <-;
